@@ -35,7 +35,9 @@ def scratch(patch=None):
 
 def run_demo(repo, name):
     demo = os.path.join(SEEDED, name, 'demo.py')
-    dst = os.path.join(repo, '_demo.py')
+    # keep the layout the demo was written for: <tree>/_seeded/<name>/demo.py
+    os.makedirs(os.path.join(repo, '_seeded', name), exist_ok=True)
+    dst = os.path.join(repo, '_seeded', name, 'demo.py')
     src = open(demo).read()
     # demos were written for a worktree path; point them at this copy
     meta = json.load(open(os.path.join(SEEDED, name, 'meta.json')))
